@@ -183,7 +183,7 @@ fn gen_run(t: &mut Tape) -> Run {
         0 | 1 | 2 => Run::CliGenerate { mode: gen_mode(t), nocmd: t.chance(1, 5), viz: t.chance(1, 4), force: t.chance(1, 3), verbose: t.chance(1, 6) },
         3 | 4 | 5 => Run::BuildRs { mode: gen_mode(t), nocmd: t.chance(1, 4), viz: t.chance(1, 4), force: t.chance(1, 3) },
         _ => {
-            let config = ["default", "tauri_explicit", "custom", "custom_dir", "tauri_in_subdir", "tauri_in_new_subdir"][t.pick(6)].to_string();
+            let config = ["default", "tauri_explicit", "custom", "custom_dir", "tauri_in_subdir", "tauri_in_new_subdir", "tauri_dot_slash"][t.pick(7)].to_string();
             Run::CliInit { mode: gen_mode(t), config, force: t.chance(1, 2), viz: t.chance(1, 4), nocmd: t.chance(1, 6) }
         }
     }
@@ -349,6 +349,7 @@ fn build_sandbox(case: &Case) -> Built {
     write(&src_tauri.join("types.ts"), "// stray file next to the sources\n");
     write(&src_tauri.join("src/commands.ts"), "// stray file inside the sources\n");
     write(&src_tauri.join("conf/keep.json"), "{}\n");
+    write(&app.join("tauri.conf.json"), "{\n  \"productName\": \"not the project's\",\n  \"plugins\": {}\n}\n");
     write(&app.join("staging/tauri.conf.json"), "{\n  \"productName\": \"staging copy\",\n  \"plugins\": {}\n}\n");
     write(&empty_proj.join("tauri.conf.json"), &tauri_conf(".", "./never-used", "none", false, false));
     // initial configuration; every build-script run rewrites it (harness edit, before the snapshot)
@@ -437,6 +438,13 @@ fn exec_run(case: &Case, b: &Built, run: &Run) -> (Snapshot, Exec, Snapshot) {
                     args.push("-o".into());
                     args.push("staging/tauri.conf.json".into());
                     cli_cwd.join("staging/tauri.conf.json")
+                }
+                // `./tauri.conf.json`: the file of that name in the working directory, which is the
+                // project's own only when init runs inside the project
+                "tauri_dot_slash" => {
+                    args.push("-o".into());
+                    args.push("./tauri.conf.json".into());
+                    cli_cwd.join("tauri.conf.json")
                 }
                 "tauri_in_new_subdir" => {
                     args.push("-o".into());
@@ -625,7 +633,7 @@ pub fn run(ctx: &Ctx) {
     let max_runs = MAX_RUNS;
     let cases = ctx.tier.pick(4000u32, 60000u32);
     ctx.set_rule(&format!(
-        "{} sandboxes decoded from proptest-supplied choice tapes: project variant (base / minimal / base+extra file / no commands) in ws/app/src-tauri plus a command-less project ws/app/empty-proj; output directory beside the project (ws/app/src/generated), inside it (src-tauri/bindings), nested below its sources (src-tauri/src/gen/deep), outside the app (ws/out/gen) or not yet existing with missing parents; spelled relative, ./relative, absolute, with trailing slash; pre-populated with each of {} pool entries with probability 1/2 (near-misses of reserved names, plain user files, nested files, an empty subdirectory, a symlink, and genuinely reserved names); sentinel files with reserved names outside the output directory; histories of 1..={} runs drawn from CLI generate (none/zod, project with or without commands, --visualize-deps, --force, --verbose), CLI init (default tauri.conf.json, explicit -o tauri.conf.json, custom -o file, -o into a directory, -o <dir>/tauri.conf.json relative to the working directory with the directory present or absent; with/without --force) and the build-script path (tauri.conf.json written by the harness before the snapshot). Whole sandbox snapshotted (kind, content hash, length, mtime, inode, symlink target) before and after every run. evaluations = runs executed; non-trivial = sandbox whose output directory holds >= 3 foreign (non-reserved) files of which >= 1 is a near-miss of a reserved name, distinct by (layout, pool subset, history)",
+        "{} sandboxes decoded from proptest-supplied choice tapes: project variant (base / minimal / base+extra file / no commands) in ws/app/src-tauri plus a command-less project ws/app/empty-proj; output directory beside the project (ws/app/src/generated), inside it (src-tauri/bindings), nested below its sources (src-tauri/src/gen/deep), outside the app (ws/out/gen) or not yet existing with missing parents; spelled relative, ./relative, absolute, with trailing slash; pre-populated with each of {} pool entries with probability 1/2 (near-misses of reserved names, plain user files, nested files, an empty subdirectory, a symlink, and genuinely reserved names); sentinel files with reserved names outside the output directory; histories of 1..={} runs drawn from CLI generate (none/zod, project with or without commands, --visualize-deps, --force, --verbose), CLI init (default tauri.conf.json, explicit -o tauri.conf.json, custom -o file, -o into a directory, -o <dir>/tauri.conf.json relative to the working directory with the directory present or absent, -o ./tauri.conf.json; with/without --force) and the build-script path (tauri.conf.json written by the harness before the snapshot). Whole sandbox snapshotted (kind, content hash, length, mtime, inode, symlink target) before and after every run. evaluations = runs executed; non-trivial = sandbox whose output directory holds >= 3 foreign (non-reserved) files of which >= 1 is a near-miss of a reserved name, distinct by (layout, pool subset, history)",
         cases,
         POOL.len(),
         max_runs
